@@ -524,8 +524,18 @@ pub fn format_block(ctx: &Context, block: &Block, shape: Shape) -> Block {
     while let Some((stmt, semi)) = stmt_iterator.next() {
         ctx = ctx.check_toggle_formatting(stmt);
 
+        let should_format = matches!(ctx.should_format_node(stmt), FormatNode::Normal);
+
         let shape = shape.reset();
         let mut stmt = format_stmt(&ctx, stmt, shape);
+
+        // A statement which is ignored or outside of the formatting range keeps its own text (only a range nested
+        // inside of it has been formatted above), and that includes its semicolon and any comments attached to it
+        if !should_format {
+            found_first_stmt = true;
+            formatted_statements.push((stmt, semi.to_owned()));
+            continue;
+        }
 
         // If this is the first stmt, then remove any leading newlines
         if !found_first_stmt {
@@ -592,8 +602,18 @@ pub fn format_block(ctx: &Context, block: &Block, shape: Shape) -> Block {
         Some((last_stmt, semi)) => {
             ctx = ctx.check_toggle_formatting(last_stmt);
 
+            let should_format = matches!(ctx.should_format_node(last_stmt), FormatNode::Normal);
+
             let shape = shape.reset();
             let mut last_stmt = format_last_stmt(&ctx, last_stmt, shape);
+
+            // As above: an ignored / out of range last statement keeps its semicolon
+            if !should_format {
+                return Block::new()
+                    .with_stmts(formatted_statements)
+                    .with_last_stmt(Some((last_stmt, semi.to_owned())));
+            }
+
             // If this is the first stmt, then remove any leading newlines
             if !found_first_stmt && matches!(ctx.should_format_node(&last_stmt), FormatNode::Normal)
             {
